@@ -37,7 +37,7 @@ type w13 struct {
 	a, b  *ipfslog.IPFSLog
 	c     *ipfslog.IPFSLog
 	obs   *obs
-	recs  [][]opRec  // per thread
+	recs  [][]opRec   // per thread
 	reads [][]readRec // per thread: what each reader call on a log returned, with its call/return timestamps
 	// truncated: the scenario works on a size-bounded log, which by design lacks predecessors of its oldest entries
 	truncated bool
